@@ -32,6 +32,11 @@ type World struct {
 	modsets map[*ssa.Function]*ModSet
 	repo    string
 	loopAST map[*ssa.Function][]ast.Node
+
+	constGlobals    map[*ssa.Global]*ssa.Const
+	nonConstGlobals map[*ssa.Global]bool
+	globalsScanned  bool
+	allModuleFuncs  []*ssa.Function
 }
 
 type ModSet struct {
@@ -73,6 +78,7 @@ func LoadWorld(repo string, patterns []string) (*World, error) {
 			continue
 		}
 		w.funcs[w.funcKey(fn)] = fn
+		w.allModuleFuncs = append(w.allModuleFuncs, fn)
 	}
 	dirs := map[string]string{}
 	for path, p := range w.pkgs {
@@ -425,6 +431,47 @@ func (w *World) staticTypeOf(fn *ssa.Function, pkg *types.Package, expr string) 
 		}
 	}
 	return t
+}
+
+// constGlobal: a package-level variable initialised with a constant and never
+// stored to (or address-taken) anywhere else in its package behaves as a constant.
+func (w *World) constGlobal(g *ssa.Global) (*ssa.Const, bool) {
+	if w.constGlobals == nil {
+		w.constGlobals = map[*ssa.Global]*ssa.Const{}
+		w.nonConstGlobals = map[*ssa.Global]bool{}
+	}
+	if !w.globalsScanned {
+		w.globalsScanned = true
+		for _, fn := range w.allModuleFuncs {
+			for _, b := range fn.Blocks {
+				for _, in := range b.Instrs {
+					for _, op := range in.Operands(nil) {
+						gg, isG := (*op).(*ssa.Global)
+						if !isG {
+							continue
+						}
+						switch x := in.(type) {
+						case *ssa.UnOp, *ssa.DebugRef:
+						case *ssa.Store:
+							c, isC := x.Val.(*ssa.Const)
+							if x.Addr == ssa.Value(gg) && isC && fn.Name() == "init" && w.constGlobals[gg] == nil {
+								w.constGlobals[gg] = c
+							} else {
+								w.nonConstGlobals[gg] = true
+							}
+						default:
+							w.nonConstGlobals[gg] = true
+						}
+					}
+				}
+			}
+		}
+	}
+	if w.nonConstGlobals[g] {
+		return nil, false
+	}
+	c, ok := w.constGlobals[g]
+	return c, ok
 }
 
 func sortedFuncKeys(m map[string]bool) []string {
